@@ -1175,8 +1175,14 @@ struct CTx {
 
 fn coord_inner(case_seed: u64, r: &mut Report) -> Result<(u64, bool), Fail> {
     let mut rng = Rng::new(case_seed);
-    let sweep_times_out = rng.chance(1, 3);
-    let cfg = DistributedTxConfig { prepare_timeout_ms: if sweep_times_out { 0 } else { 3_600_000 }, ..DistributedTxConfig::default() };
+    // 0: no transaction ever times out; 1: every sweep times out everything pending (timeout 0);
+    // 2: timeout 20 ms with 12 ms naps, so that old transactions time out while young ones stay
+    // (which transaction has timed out is the coordinator's own call: the oracle only judges the
+    // ones cleanup_timeouts lists)
+    let timeout_mode = rng.weighted(&[3, 2, 2]);
+    let sweep_times_out = timeout_mode == 1;
+    let cfg = DistributedTxConfig { prepare_timeout_ms: [3_600_000, 0, 20][timeout_mode], ..DistributedTxConfig::default() };
+    let mut naps = 0;
     let coord = DistributedTxCoordinator::new(ConsensusManager::default_config(), cfg);
     let nkeys = 3 + rng.below(4);
     let mut txs: Vec<CTx> = Vec::new();
@@ -1185,6 +1191,11 @@ fn coord_inner(case_seed: u64, r: &mut Report) -> Result<(u64, bool), Fail> {
     let mut completions = 0u64;
     let mut conflicts = 0u64;
     let mut soft: Vec<Fail> = Vec::new();
+    // reference lock table: key -> transaction whose prepare was granted it (the coordinator's
+    // LockManager uses its 30 s default timeout; a case that takes longer than 3 s is not judged)
+    let mut held: BTreeMap<String, u64> = BTreeMap::new();
+    let mut next_orphan = 7u64;
+    let case_started = Instant::now();
 
     let completed = |tx: u64, how: &str, all_ids: &[u64], trace: &[String], soft: &mut Vec<Fail>, r: &mut Report| -> Ck {
         let lm = coord.lock_manager();
@@ -1222,8 +1233,12 @@ fn coord_inner(case_seed: u64, r: &mut Report) -> Result<(u64, bool), Fail> {
 
     let steps = 6 + rng.below(40);
     for _ in 0..steps {
-        let choice = rng.weighted(&[18, 40, 12, 10, 6, 8]);
-        if choice == 0 || txs.is_empty() {
+        if case_started.elapsed() > Duration::from_secs(3) {
+            r.inconclusive("coord case ran longer than 3 s (lock timeout is 30 s): machine stalled");
+            return Ok((0, false));
+        }
+        let choice = rng.weighted(&[18, 40, 12, 10, 6, 8, 5]);
+        if choice == 0 || (txs.is_empty() && choice != 6) {
             let shards: Vec<usize> = if rng.bool() { vec![0] } else { vec![0, 1] };
             match coord.begin(&"c".to_string(), &shards) {
                 Ok(t) => {
@@ -1236,76 +1251,165 @@ fn coord_inner(case_seed: u64, r: &mut Report) -> Result<(u64, bool), Fail> {
             }
             continue;
         }
-        let idx = rng.below(txs.len());
-        let id = txs[idx].id;
-        match choice {
-            1 => {
-                // one prepare per (tx, shard), only while the coordinator still collects votes
-                let open: Vec<usize> = txs[idx].shards.iter().copied().filter(|s| !txs[idx].voted.contains(s)).collect();
-                let preparing = coord.get(id).map(|t| t.phase == TxPhase::Preparing).unwrap_or(false);
-                if open.is_empty() || !preparing {
-                    continue;
-                }
-                let shard = open[rng.below(open.len())];
-                let nk = 1 + rng.below(2);
-                let ops: Vec<Transaction> = (0..nk).map(|_| Transaction::Put { key: kname(rng.below(nkeys)), data: vec![1] }).collect();
-                let req = PrepareRequest { tx_id: id, coordinator: "c".into(), operations: ops.clone(), delta_embedding: SparseVector::new(4), timeout_ms: 5000 };
-                let vote = coord.handle_prepare(&req);
-                let vs = match &vote {
-                    PrepareVote::Yes { lock_handle, .. } => format!("Yes(h{})", lock_handle),
-                    PrepareVote::Conflict { conflicting_tx, .. } => {
-                        conflicts += 1;
-                        format!("Conflict(tx{})", conflicting_tx)
+        if choice == 6 {
+            // partition healing: locks whose owner is not a pending transaction are orphans
+            let mut planted: Vec<(u64, String)> = Vec::new();
+            if rng.chance(2, 3) {
+                let key = kname(rng.below(nkeys));
+                if !held.contains_key(&key) {
+                    let id = next_orphan;
+                    next_orphan += 1;
+                    if coord.lock_manager().try_lock(id, &[key.clone()]).is_ok() {
+                        trace.push(format!("orphan lock: try_lock(tx{}, [{}]) -> Ok", id, key));
+                        planted.push((id, key));
                     }
-                    _ => "No".to_string(),
+                }
+            }
+            // (a) a partition that began before anything was locked releases nothing
+            let n0 = coord.release_orphaned_locks(0);
+            trace.push(format!("release_orphaned_locks(0) -> {}", n0));
+            for (id, key) in &planted {
+                if coord.lock_manager().lock_holder(key) != Some(*id) {
+                    return fail("orphan-sweep:released-lock-acquired-after-partition-start", format!("{} of tx {} released by release_orphaned_locks(0); program {:?}", key, id, trace));
+                }
+            }
+            // (b) everything now in the table was acquired before `later`
+            let later = now_ms() + 60_000;
+            let n1 = coord.release_orphaned_locks(later);
+            trace.push(format!("release_orphaned_locks(now+60s) -> {}", n1));
+            r.count("coord_op[release_orphaned_locks]", 2);
+            for (id, key) in &planted {
+                r.count("orphans_planted", 1);
+                if coord.lock_manager().lock_holder(key).is_some() || !coord.lock_manager().keys_for_transaction(*id).is_empty() {
+                    return fail(
+                        "orphan-sweep:orphaned-lock-remains",
+                        format!("{} of tx {} (not a pending transaction) still held after release_orphaned_locks; keys_for_transaction = {:?}; program {:?}", key, id, coord.lock_manager().keys_for_transaction(*id), trace),
+                    );
+                }
+            }
+            // locks of pending transactions are judged by the table comparison below
+        } else {
+            let idx = rng.below(txs.len());
+            let id = txs[idx].id;
+            match choice {
+                1 => {
+                    // one prepare per (tx, shard), only while the coordinator still collects votes
+                    let open: Vec<usize> = txs[idx].shards.iter().copied().filter(|s| !txs[idx].voted.contains(s)).collect();
+                    let preparing = coord.get(id).map(|t| t.phase == TxPhase::Preparing).unwrap_or(false);
+                    if open.is_empty() || !preparing {
+                        continue;
+                    }
+                    let shard = open[rng.below(open.len())];
+                    let nk = 1 + rng.below(2);
+                    let ops: Vec<Transaction> = (0..nk).map(|_| Transaction::Put { key: kname(rng.below(nkeys)), data: vec![1] }).collect();
+                    let keys: Vec<String> = ops.iter().map(|o| o.affected_key().to_string()).collect();
+                    let req = PrepareRequest { tx_id: id, coordinator: "c".into(), operations: ops.clone(), delta_embedding: SparseVector::new(4), timeout_ms: 5000 };
+                    let blockers: BTreeSet<u64> = keys.iter().filter_map(|k| held.get(k).copied()).filter(|&t| t != id).collect();
+                    let vote = coord.handle_prepare(&req);
+                    let vs = match &vote {
+                        PrepareVote::Yes { lock_handle, .. } => format!("Yes(h{})", lock_handle),
+                        PrepareVote::Conflict { conflicting_tx, .. } => {
+                            conflicts += 1;
+                            format!("Conflict(tx{})", conflicting_tx)
+                        }
+                        _ => "No".to_string(),
+                    };
+                    trace.push(format!("prepare(tx{}, shard {}, {:?}) -> {}", id, shard, keys, vs));
+                    match &vote {
+                        PrepareVote::Yes { .. } => {
+                            if !blockers.is_empty() {
+                                return fail(
+                                    "coord:prepare-granted-over-held-key",
+                                    format!("prepare of tx {} on {:?} voted yes although {:?} hold(s) a requested key; program {:?}", id, keys, blockers, trace),
+                                );
+                            }
+                            for k in &keys {
+                                held.insert(k.clone(), id);
+                            }
+                        }
+                        PrepareVote::Conflict { conflicting_tx, .. } => {
+                            if blockers.is_empty() {
+                                return fail("coord:conflict-vote-without-any-holder", format!("prepare of tx {} on {:?} voted conflict (tx {}) but nobody else holds a requested key; program {:?}", id, keys, conflicting_tx, trace));
+                            }
+                            if !blockers.contains(conflicting_tx) {
+                                return fail("coord:conflict-vote-names-non-holder", format!("prepare of tx {} on {:?} names tx {}, holders are {:?}; program {:?}", id, keys, conflicting_tx, blockers, trace));
+                            }
+                        }
+                        _ => {}
+                    }
+                    let rv = coord.record_vote(id, shard, vote);
+                    txs[idx].voted.insert(shard);
+                    trace.push(format!("record_vote(tx{}, shard {}) -> {:?}", id, shard, rv));
+                    r.count("coord_op[prepare]", 1);
+                }
+                2 => {
+                    let res = coord.commit(id);
+                    trace.push(format!("commit(tx{}) -> {}", id, if res.is_ok() { "Ok" } else { "Err" }));
+                    r.count("coord_op[commit]", 1);
+                    if res.is_ok() {
+                        txs.remove(idx);
+                        held.retain(|_, t| *t != id);
+                        completions += 1;
+                        completed(id, "commit", &all_ids, &trace, &mut soft, r)?;
+                    }
+                }
+                3 => {
+                    let res = coord.abort(id, "client");
+                    trace.push(format!("abort(tx{}) -> {}", id, if res.is_ok() { "Ok" } else { "Err" }));
+                    r.count("coord_op[abort]", 1);
+                    if res.is_ok() {
+                        txs.remove(idx);
+                        held.retain(|_, t| *t != id);
+                        completions += 1;
+                        completed(id, "abort", &all_ids, &trace, &mut soft, r)?;
+                    }
+                }
+                4 => {
+                    let res = coord.complete_abort(id);
+                    trace.push(format!("complete_abort(tx{}) -> {}", id, if res.is_ok() { "Ok" } else { "Err" }));
+                    r.count("coord_op[complete_abort]", 1);
+                    if res.is_ok() {
+                        txs.remove(idx);
+                        held.retain(|_, t| *t != id);
+                        completions += 1;
+                        completed(id, "abort", &all_ids, &trace, &mut soft, r)?;
+                    }
+                }
+                _ => {
+                    if sweep_times_out {
+                        std::thread::sleep(Duration::from_millis(3));
+                    } else if timeout_mode == 2 && naps < 8 {
+                        naps += 1;
+                        std::thread::sleep(Duration::from_millis(12));
+                        trace.push("nap 12 ms".into());
+                        if rng.bool() {
+                            continue;
+                        }
+                    }
+                    let gone = coord.cleanup_timeouts();
+                    trace.push(format!("cleanup_timeouts -> {:?}", gone));
+                    r.count("coord_op[cleanup_timeouts]", 1);
+                    for t in gone {
+                        txs.retain(|x| x.id != t);
+                        held.retain(|_, o| *o != t);
+                        completions += 1;
+                        completed(t, "timeout", &all_ids, &trace, &mut soft, r)?;
+                    }
+                }
+            }
+        }
+        // one holder per key, and it is the transaction whose prepare was granted
+        for k in 0..nkeys {
+            let name = kname(k);
+            let h = coord.lock_manager().lock_holder(&name);
+            r.count("coord_holder_reads_checked", 1);
+            if h != held.get(&name).copied() {
+                let sig = match (h, held.get(&name)) {
+                    (None, Some(_)) => "coord:lock-of-pending-transaction-vanished",
+                    (Some(_), None) => "coord:key-held-although-nobody-was-granted-it",
+                    _ => "coord:holder-differs-from-grantee",
                 };
-                let rv = coord.record_vote(id, shard, vote);
-                txs[idx].voted.insert(shard);
-                trace.push(format!("prepare(tx{}, shard {}, {:?}) -> {} ; record_vote -> {:?}", id, shard, ops.iter().map(|o| o.affected_key().to_string()).collect::<Vec<_>>(), vs, rv));
-                r.count("coord_op[prepare]", 1);
-            }
-            2 => {
-                let res = coord.commit(id);
-                trace.push(format!("commit(tx{}) -> {}", id, if res.is_ok() { "Ok" } else { "Err" }));
-                r.count("coord_op[commit]", 1);
-                if res.is_ok() {
-                    txs.remove(idx);
-                    completions += 1;
-                    completed(id, "commit", &all_ids, &trace, &mut soft, r)?;
-                }
-            }
-            3 => {
-                let res = coord.abort(id, "client");
-                trace.push(format!("abort(tx{}) -> {}", id, if res.is_ok() { "Ok" } else { "Err" }));
-                r.count("coord_op[abort]", 1);
-                if res.is_ok() {
-                    txs.remove(idx);
-                    completions += 1;
-                    completed(id, "abort", &all_ids, &trace, &mut soft, r)?;
-                }
-            }
-            4 => {
-                let res = coord.complete_abort(id);
-                trace.push(format!("complete_abort(tx{}) -> {}", id, if res.is_ok() { "Ok" } else { "Err" }));
-                r.count("coord_op[complete_abort]", 1);
-                if res.is_ok() {
-                    txs.remove(idx);
-                    completions += 1;
-                    completed(id, "abort", &all_ids, &trace, &mut soft, r)?;
-                }
-            }
-            _ => {
-                if sweep_times_out {
-                    std::thread::sleep(Duration::from_millis(3));
-                }
-                let gone = coord.cleanup_timeouts();
-                trace.push(format!("cleanup_timeouts -> {:?}", gone));
-                r.count("coord_op[cleanup_timeouts]", 1);
-                for t in gone {
-                    txs.retain(|x| x.id != t);
-                    completions += 1;
-                    completed(t, "timeout", &all_ids, &trace, &mut soft, r)?;
-                }
+                return fail(sig, format!("{}: lock_holder = {:?}, granted to {:?}; program {:?}", name, h, held.get(&name), trace));
             }
         }
     }
@@ -1316,6 +1420,9 @@ fn coord_inner(case_seed: u64, r: &mut Report) -> Result<(u64, bool), Fail> {
             completions += 1;
             completed(t.id, "abort", &all_ids, &trace, &mut soft, r)?;
         }
+    }
+    if !coord.lock_manager().to_serializable().locks().is_empty() {
+        return fail("coord:locks-remain-after-every-transaction-completed", format!("lock table {:?}; program {:?}", coord.lock_manager().to_serializable().locks().keys().collect::<Vec<_>>(), trace));
     }
     r.count("coord_conflict_votes", conflicts);
     let mut seen = BTreeSet::new();
@@ -1335,8 +1442,10 @@ fn coord_inner(case_seed: u64, r: &mut Report) -> Result<(u64, bool), Fail> {
 fn coord_case(case_seed: u64, r: &mut Report) -> bool {
     match coord_inner(case_seed, r) {
         Ok((h, nt)) => {
-            r.eval(h, nt);
-            r.count("coord_programs", 1);
+            if h != 0 {
+                r.eval(h, nt);
+                r.count("coord_programs", 1);
+            }
             true
         }
         Err(f) => {
@@ -1695,6 +1804,54 @@ fn threads_case(case_seed: u64, r: &mut Report) -> bool {
 }
 
 // ------------------------------------------------------------------------------------------------
+// witness: the two minimal programs behind the findings of this check (`--part witness`, not part
+// of a normal run; prints what the real code answers)
+// ------------------------------------------------------------------------------------------------
+
+fn witnesses(r: &mut Report) {
+    // (1) reverse index keeps a key after the expired lock was taken over
+    let lm = LockManager::with_default_timeout(Duration::from_millis(30));
+    let k = vec!["k".to_string()];
+    let h1 = lm.try_lock(1, &k);
+    std::thread::sleep(Duration::from_millis(330));
+    let h2 = lm.try_lock(2, &k);
+    if let Ok(h) = h1 {
+        lm.release_by_handle(h);
+    }
+    if let Ok(h) = h2 {
+        lm.release_by_handle(h);
+    }
+    let left = lm.keys_for_transaction(1);
+    eprintln!("witness 1: try_lock(1,[k]) = {:?}; sleep 11 x timeout; try_lock(2,[k]) = {:?}; release_by_handle(both); keys_for_transaction(1) = {:?}, lock_count_for_transaction(1) = {}", h1, h2, left, lm.lock_count_for_transaction(1));
+    r.sample(json!({"witness": "takeover-leaves-index-entry", "keys_for_transaction(1)": left}));
+    // (2) a transaction refused on its only shard stays a waiter after abort
+    let coord = DistributedTxCoordinator::new(ConsensusManager::default_config(), DistributedTxConfig::default());
+    let req = |id: u64| PrepareRequest { tx_id: id, coordinator: "c".into(), operations: vec![Transaction::Put { key: "k".into(), data: vec![1] }], delta_embedding: SparseVector::new(4), timeout_ms: 5000 };
+    let a = coord.begin(&"c".to_string(), &[0]).map(|t| t.tx_id).unwrap_or(0);
+    let va = coord.handle_prepare(&req(a));
+    let ra = coord.record_vote(a, 0, va.clone());
+    let b = coord.begin(&"c".to_string(), &[0]).map(|t| t.tx_id).unwrap_or(0);
+    let vb = coord.handle_prepare(&req(b));
+    let rb = coord.record_vote(b, 0, vb.clone());
+    let ab = coord.abort(b, "conflict");
+    let wf = coord.wait_graph().waiting_for(b);
+    let wo = coord.wait_graph().waiting_on(a);
+    eprintln!(
+        "witness 2: A={} prepare -> {:?} / {:?}; B={} prepare -> {:?} / {:?}; abort(B) = {:?}; waiting_for(B) = {:?}; waiting_on(A) = {:?}",
+        a,
+        matches!(va, PrepareVote::Yes { .. }),
+        ra,
+        b,
+        vb,
+        rb,
+        ab.is_ok(),
+        wf,
+        wo
+    );
+    r.sample(json!({"witness": "aborted-tx-still-waiter", "waiting_for(B)": wf.iter().collect::<Vec<_>>()}));
+}
+
+// ------------------------------------------------------------------------------------------------
 // main
 // ------------------------------------------------------------------------------------------------
 
@@ -1738,6 +1895,9 @@ fn main() {
         }
     } else {
         let th = args.threads.max(1);
+        if part == "witness" {
+            witnesses(&mut total);
+        }
         if want("graph4") {
             let rep = par_cases(th, args.seed, 4096, args.budget(300, 1200), |i, s, r| {
                 graph4_case(i, s, r);
